@@ -180,7 +180,7 @@ def cq_robs(obs):
             oc = "OExn (EViol (%s))" % cq_site(o[1])
         else:
             oc = "OExn (EUser (-1)%Z)"    # anything else (RecursionError, library errors): never equal to a model outcome
-        ks = C.cq_list(["KF %d" % k[1] if k[0] == "f" else ("KO %d" % k[1] if k[0] == "o" else "KF 4999")
+        ks = C.cq_list(["KF %d" % k[1] if k[0] == "f" else ("KO %d" % k[1] if k[0] == "o" else "KF 99")
                         for k in op["in_progress"]])
         out.append("(%s, %s, %s)" % (tr, oc, ks))
     return C.cq_list(out)
@@ -260,7 +260,7 @@ def cq_cobs(obs):
             oc = "Some (OExn (EViol (%s)))" % cq_site(o[1])
         else:
             oc = "Some (OExn (EUser (-1)%Z))"
-        ks = C.cq_list(["KF %d" % k[1] if k[0] == "f" else ("KO %d" % k[1] if k[0] == "o" else "KF 4999")
+        ks = C.cq_list(["KF %d" % k[1] if k[0] == "f" else ("KO %d" % k[1] if k[0] == "o" else "KF 99")
                         for k in tk["in_progress"]])
         out.append("(%s, %s, %s)" % (tr, oc, ks))
     return C.cq_list(out)
